@@ -32,7 +32,7 @@ UNIT = -1  # explicit reference to zope.testrunner.layer.UnitTests
 
 KINDS = ('pass', 'fail', 'error', 'error_setup', 'error_teardown', 'error_both', 'fail_teardown',
          'cleanup_error', 'skip_deco', 'skip_setup', 'skip_body', 'xfail', 'uxsuccess', 'subtests',
-         'sysexit')
+         'sysexit', 'error_sig', 'cleanup_noncallable')
 
 # --------------------------------------------------------------------------------------------
 # trace
@@ -357,6 +357,18 @@ def do_actions(acts, where):
             class _Inner(unittest.TestCase):
                 def test_inner(self):
                     pass
+            if len(act) > 2 and act[2] == 'hooks':
+                # the inner run has a layer with per-test hooks of its own
+                class ZtvInnerLayer:
+                    @classmethod
+                    def testSetUp(cls):
+                        emit('L', h='testSetUp', layer='ZtvInnerLayer', ph='enter')
+
+                    @classmethod
+                    def testTearDown(cls):
+                        emit('L', h='testTearDown', layer='ZtvInnerLayer', ph='enter')
+                ZtvInnerLayer.__module__ = 'ztv_inner'
+                _Inner.layer = ZtvInnerLayer
             inner = Runner([], [sys.argv[0] if sys.argv else 'inner'] + list(act[1]),
                            found_suites=[unittest.defaultTestLoader.loadTestsFromTestCase(_Inner)])
             inner.run()
@@ -632,6 +644,17 @@ class InstLayer:
         return '<InstLayer %s>' % self.__name__
 
 
+class FalsyInstLayer(InstLayer):
+    """An instance layer that is a (still empty) container of the resources it provides: legal, but false in a
+    boolean context."""
+
+    def __len__(self):
+        return 0
+
+    def __iter__(self):
+        return iter(())
+
+
 def _hook_body(target, hook, lspecs):
     name = target.__name__
     ls = lspecs.get(name) or {}
@@ -668,7 +691,7 @@ def build_layers(spec, modname):
             except TypeError:   # no consistent MRO: fall back to an instance layer
                 kind = 'inst'
         if kind == 'inst':
-            obj = InstLayer(L['name'], L.get('modp', '') + modname, bases)
+            obj = (FalsyInstLayer if L.get('falsy') else InstLayer)(L['name'], L.get('modp', '') + modname, bases)
             for h in L['hooks']:
                 setattr(obj, h, (lambda _o=obj, _h=h: _hook_body(_o, _h, lspecs)))
         layers.append(obj)
@@ -713,6 +736,8 @@ def _case_setUp(self):
             emit('T', ph='cleanup', id=self.id())
             raise make_exc(t.get('exc', 'ValueError'), t.get('msg'))
         self.addCleanup(cleanup)
+    if k == 'cleanup_noncallable':
+        self.addCleanup(42)     # TypeError raised by unittest's own frame when the clean-ups run
     if k == 'error_setup':
         raise make_exc(t.get('exc', 'ValueError'), t.get('msg'))
     if k == 'skip_setup':
@@ -784,6 +809,11 @@ def _make_body(t):
                         self.skipTest('sub skipped')
         do_actions(acts.get('body_end'), 'T:%s:body_end' % t['n'])
 
+    if k == 'error_sig':
+        # a test method with a wrong signature: the TypeError is raised by the call itself, inside unittest/case.py
+        # (the traceback holds no frame of the test module)
+        def body():
+            pass
     body.__name__ = t['n']
     if 'doc' in t:
         body.__doc__ = t['doc']
